@@ -23,7 +23,8 @@ def nw(recv, fn):
 //@   property C09
 //@   maypanic
 //@   requires alpha != nil && allocated(idxRef(alpha))
-{ENS}//@   loop 1 invariant {LOOP1}
+{ENS}//@   ensures [spans] result1 == nil ==> len(result0) > 0 && result0[0].(*featPair).a.start == 0 && result0[0].(*featPair).b.start == 0 && result0[len(result0)-1].(*featPair).a.end == len(rSeq) && result0[len(result0)-1].(*featPair).b.end == len(qSeq)
+//@   loop 1 invariant {LOOP1}
 //@   loop 2 invariant 0 <= idx && idx <= len(rSeq) && {KEEP} && forall k int :: 0 <= k && k < idx ==> lidx(alpha, rSeq[k]) >= 0
 //@   loop 3 invariant 0 <= idx && idx <= len(qSeq) && {KEEP} && {RV} && forall k int :: 0 <= k && k < idx ==> lidx(alpha, qSeq[k]) >= 0
 //@   loop 4 invariant 0 <= idx && idx <= c - 1 && {KEEP} && {VALID} && {DIMS}
@@ -34,10 +35,12 @@ def nw(recv, fn):
 //@   loop 8 invariant [shape] {SHAPE}
 //@   loop 8 invariant [aln] {ALN}
 //@   loop 8 invariant [pairs] {PAIRS}
+//@   loop 8 invariant [span] (len(aln) == 0 ==> maxI == r - 1 && maxJ == c - 1) && (len(aln) > 0 ==> aln[0].(*featPair).a.end == r - 1 && aln[0].(*featPair).b.end == c - 1)
 //@   loop 8 writes fresh
 //@   loop 9 invariant 0 <= i && j == len(aln) - 1 - i && {KEEP} && {VALID}
 //@   loop 9 invariant [aln] {ALN}
 //@   loop 9 invariant [pairs] {PAIRS}
+//@   loop 9 invariant [span] len(aln) > 0 ==> (i == 0 ==> aln[len(aln)-1].(*featPair).a.start == 0 && aln[len(aln)-1].(*featPair).b.start == 0 && aln[0].(*featPair).a.end == len(rSeq) && aln[0].(*featPair).b.end == len(qSeq)) && (i > 0 ==> aln[0].(*featPair).a.start == 0 && aln[0].(*featPair).b.start == 0 && aln[len(aln)-1].(*featPair).a.end == len(rSeq) && aln[len(aln)-1].(*featPair).b.end == len(qSeq))
 //@   loop 9 writes fresh
 '''
 def sw(recv, fn):
@@ -104,7 +107,8 @@ def nwaffine(recv, fn):
 //@   property C09
 //@   maypanic
 //@   requires alpha != nil && allocated(idxRef(alpha)) && len(rSeq) > 0 && len(qSeq) > 0
-{ENS}//@   loop 1 invariant {LOOP1}
+{ENS}//@   ensures [spans] result1 == nil ==> len(result0) > 0 && result0[0].(*featPair).a.start == 0 && result0[0].(*featPair).b.start == 0 && result0[len(result0)-1].(*featPair).a.end == len(rSeq) && result0[len(result0)-1].(*featPair).b.end == len(qSeq)
+//@   loop 1 invariant {LOOP1}
 //@   loop 2 invariant 0 <= idx && idx <= len(rSeq) && {KEEP} && forall k int :: 0 <= k && k < idx ==> lidx(alpha, rSeq[k]) >= 0
 //@   loop 3 invariant 0 <= idx && idx <= len(qSeq) && {KEEP} && {RV} && forall k int :: 0 <= k && k < idx ==> lidx(alpha, qSeq[k]) >= 0
 //@   loop 4 invariant 0 <= idx && idx <= c - 2 && {KEEP} && {VALID} && {DIMS}
@@ -118,10 +122,12 @@ def nwaffine(recv, fn):
 //@   loop 9 invariant [shape] {SHAPE}
 //@   loop 9 invariant [aln] {ALN}
 //@   loop 9 invariant [pairs] {PAIRS}
+//@   loop 9 invariant [span] (len(aln) == 0 ==> maxI == r - 1 && maxJ == c - 1) && (len(aln) > 0 ==> aln[0].(*featPair).a.end == r - 1 && aln[0].(*featPair).b.end == c - 1)
 //@   loop 9 writes fresh
 //@   loop 10 invariant 0 <= i && j == len(aln) - 1 - i && {KEEP} && {VALID}
 //@   loop 10 invariant [aln] {ALN}
 //@   loop 10 invariant [pairs] {PAIRS}
+//@   loop 10 invariant [span] len(aln) > 0 ==> (i == 0 ==> aln[len(aln)-1].(*featPair).a.start == 0 && aln[len(aln)-1].(*featPair).b.start == 0 && aln[0].(*featPair).a.end == len(rSeq) && aln[0].(*featPair).b.end == len(qSeq)) && (i > 0 ==> aln[0].(*featPair).a.start == 0 && aln[0].(*featPair).b.start == 0 && aln[len(aln)-1].(*featPair).a.end == len(rSeq) && aln[len(aln)-1].(*featPair).b.end == len(qSeq))
 //@   loop 10 writes fresh
 ''')
 def swaffine(recv, fn):
